@@ -230,7 +230,16 @@ pub(crate) fn format_stub(_args: core::fmt::Arguments<'_>) -> String {
 /// fast path, and no SipHash / hashbrown probing is executed symbolically. The price: duplicates go
 /// unnoticed, so the row kernels ASSUME pairwise distinct targets (the duplicate clause is decided
 /// by k_validate_dup_* on concrete rows with the real HashSet).
+static mut G_INSERTED: [usize; 4] = [0; 4];
+static mut G_INSERTED_N: usize = 0;
 fn hs_insert_noop<T, S, A: std::alloc::Allocator>(_this: &mut std::collections::HashSet<T, S, A>, v: T) -> bool {
+    // ghost: which targets were handed to the duplicate judgement (T is usize in State::validate)
+    unsafe {
+        if G_INSERTED_N < 4 && core::mem::size_of::<T>() == core::mem::size_of::<usize>() {
+            G_INSERTED[G_INSERTED_N] = core::ptr::read(&v as *const T as *const usize);
+        }
+        G_INSERTED_N += 1;
+    }
     core::mem::forget(v);
     true
 }
@@ -270,6 +279,14 @@ fn c12_row<const K: usize>() {
             i += 1;
         }
         assert!(sum > 0.0 && sum <= 1.0, "C12: the accepted per-event probability sum is a real number of at most 1 (NaN never accepted)");
+        // the duplicate judgement sees EVERY target of an accepted row (states and pseudo-states alike), in order
+        let n = unsafe { G_INSERTED_N };
+        assert!(n == K, "C12: every target of an accepted row (existing state or pseudo-state) is recorded for the no-duplicates judgement");
+        let mut i = 0;
+        while i < K {
+            assert!(unsafe { G_INSERTED[i] } == decl[i].0, "C12: the no-duplicates judgement records the target itself");
+            i += 1;
+        }
     }
     kani::cover!(r.is_ok() && K > 1 && decl[K - 1].0 == STATE_SIGNAL, "row with the signal pseudo-state accepted");
     kani::cover!(r.is_err(), "row rejected");
@@ -348,3 +365,4 @@ fn k_validate_state_dists() {
     core::mem::forget(r);
     core::mem::forget(s);
 }
+
